@@ -7,6 +7,7 @@
    reader) is compared second. *)
 From Coq Require Import List NArith ZArith Bool.
 From Okv Require Import Model.Lit Model.SingleEntry2 Model.TxnText Model.TxnTextSpec.
+From Okv Require Model.ImpCsv.
 Import ListNotations.
 Open Scope N_scope.
 
@@ -27,12 +28,19 @@ Definition TX (d : date) (e : option date) (c : clear) (code : option str) (paye
 (* what one statement record says, in the statement's own terms (the generator's figure, known
    before the cell text was written): the signed movement of the configured account, the stated
    balance, the fee *)
-Record intent := { in_amount : option pdec; in_balance : option pdec; in_charge : option pdec }.
-Definition INT (a b c : option pdec) : intent := {| in_amount := a; in_balance := b; in_charge := c |}.
+Record intent := { in_amount : option pdec; in_balance : option pdec; in_charge : option pdec;
+                   in_rate : option pdec;        (* the stated exchange rate of a converted record *)
+                   in_secondary : option pdec    (* its stated secondary amount *) }.
+Definition INT (a b c rt sec : option pdec) : intent :=
+  {| in_amount := a; in_balance := b; in_charge := c; in_rate := rt; in_secondary := sec |}.
 
 Inductive case :=
 | CRun (prec : precisions) (acct : str) (intended : list intent) (records : N) (trees : list stxn)
        (widths : list (list N)) (text : str) (parsed : rres)
+| CRefused (cells : list str) (code : N)   (* a CSV statement some of whose numeric cells (given as
+                                              UTF-8 bytes) the generator wrote in a notation okane
+                                              does not know was refused: nothing was printed;
+                                              code 10 = "failed to parse comma decimal" *)
 | CPanic.                                  (* the importer itself panicked *)
 
 (* ---- "reads back as intended": the figures of the statement are the figures read back ---- *)
@@ -44,10 +52,20 @@ Definition amount_is (v : pdec) (p : sposting) : bool :=
   match sp_amount p with Some pa => same_value v (sa_value (pa_amount pa)) | None => false end.
 Definition balance_is (v : pdec) (p : sposting) : bool :=
   match sp_balance p with Some b => same_value v (sa_value b) | None => false end.
+Definition cost_is (v : pdec) (p : sposting) : bool :=
+  match sp_amount p with
+  | Some pa => match pa_cost pa with Some c => same_value v (sa_value c) | None => false end
+  | None => false
+  end.
+Definition unsigned (v : pdec) : pdec := {| neg := false; mant := mant v; scale := scale v; pfmt := pfmt v |}.
+Definition magnitude_is (v : pdec) (p : sposting) : bool :=
+  match sp_amount p with Some pa => same_value (unsigned v) (unsigned (sa_value (pa_amount pa))) | None => false end.
 Definition intent_ok (acct : str) (i : intent) (t : stxn) : bool :=
   match in_amount i with Some v => has_post acct (amount_is v) t | None => true end
   && match in_balance i with Some v => has_post acct (balance_is v) t | None => true end
-  && match in_charge i with Some v => has_post s_commissions (amount_is v) t | None => true end.
+  && match in_charge i with Some v => has_post s_commissions (amount_is v) t | None => true end
+  && match in_rate i with Some v => existsb (cost_is v) (tr_posts t) | None => true end
+  && match in_secondary i with Some v => existsb (magnitude_is v) (tr_posts t) | None => true end.
 (* no stated intents: nothing to check; otherwise one per transaction read back, in order *)
 Fixpoint intents_ok (acct : str) (is : list intent) (items : list item) : bool :=
   match is, items with
@@ -68,6 +86,7 @@ Definition spec_holds (c : case) : bool :=
   match c with
   | CRun p acct intended records trees _ _ (RItems items false) =>
       (N.of_nat (length trees) =? records) && all_same p trees items && intents_ok acct intended items
+  | CRefused _ _ => true                  (* nothing was printed: no figure of the statement was changed *)
   | _ => false
   end.
 
@@ -112,6 +131,10 @@ Definition model_agrees (c : case) : bool :=
   match c with
   | CRun p _ _ _ trees widths text parsed =>
       str_eqb (print_all p (map (map N.to_nat) widths) trees) text && rres_eqb (read_all text) parsed
+  | CRefused cells code =>
+      (* the model of str_to_comma_decimal refuses one of the cells, and the error is the number error *)
+      existsb (fun s => match ImpCsv.str_to_comma_decimal s with ImpCsv.IErr _ => true | _ => false end) cells
+      && (code =? 10)
   | CPanic => false
   end.
 
